@@ -35,6 +35,8 @@ type Solver struct {
 	BucketT                [5]time.Duration
 	dead                   bool
 	curTimeout             int
+	pathLog                strings.Builder // everything asserted/defined at path level since BeginPath
+	NOneShot               int
 }
 
 func StartSolver(kind SolverKind, timeoutMs int) (*Solver, error) {
@@ -107,12 +109,91 @@ func (s *Solver) Reset() {
 }
 
 func (s *Solver) Push() { s.send("(push 1)\n") }
+
+func (s *Solver) BeginPath() {
+	s.pathLog.Reset()
+	s.send("(push 1)\n")
+}
+func (s *Solver) EndPath() {
+	s.send("(pop 1)\n")
+	s.pathLog.Reset()
+}
 func (s *Solver) Pop()  { s.send("(pop 1)\n") }
 
 func (s *Solver) Assert(defs, expr string) {
 	s.send(defs)
 	s.send("(assert " + expr + ")\n")
+	s.pathLog.WriteString(defs)
+	s.pathLog.WriteString("(assert " + expr + ")\n")
 }
+
+// OneShot solves pathLog ∧ assume in a fresh non-incremental solver process (z3's
+// non-incremental pipeline preprocesses much more aggressively than its push/pop core).
+func (s *Solver) OneShot(assume []string, wantModel bool, vars []string, timeoutMs int) (SatResult, map[string]string, string) {
+	s.NOneShot++
+	var sb strings.Builder
+	sb.WriteString("(set-option :produce-models true)\n")
+	sb.WriteString(s.pathLog.String())
+	for _, a := range assume {
+		sb.WriteString("(assert " + a + ")\n")
+	}
+	sb.WriteString("(check-sat)\n")
+	if wantModel && len(vars) > 0 {
+		for i := 0; i < len(vars); i += 50 {
+			j := i + 50
+			if j > len(vars) {
+				j = len(vars)
+			}
+			sb.WriteString("(get-value (" + strings.Join(vars[i:j], " ") + "))\n")
+		}
+	}
+	bin := "z3-new"
+	if s.kind == SZ3 {
+		bin = "z3"
+	}
+	var cmd *exec.Cmd
+	if s.kind == SCVC5 {
+		cmd = exec.Command("cvc5", "--lang=smt2", "--produce-models", fmt.Sprintf("--tlimit=%d", timeoutMs))
+		sb2 := "(set-logic ALL)\n" + sb.String()
+		cmd.Stdin = strings.NewReader(sb2)
+	} else {
+		cmd = exec.Command(bin, "-in", "-smt2", fmt.Sprintf("-t:%d", timeoutMs))
+		cmd.Stdin = strings.NewReader(sb.String())
+	}
+	t0 := time.Now()
+	out, _ := cmd.CombinedOutput()
+	s.Time += time.Since(t0)
+	txt := string(out)
+	first := txt
+	rest := ""
+	if i := strings.Index(txt, "\n"); i >= 0 {
+		first, rest = txt[:i], txt[i+1:]
+	}
+	first = strings.TrimSpace(first)
+	switch first {
+	case "unsat":
+		s.NUnsat++
+		return RUnsat, nil, ""
+	case "sat":
+		s.NSat++
+		model := map[string]string{}
+		if wantModel {
+			parseGetValue(rest, model)
+		}
+		return RSat, model, ""
+	}
+	s.NUnknown++
+	if d := os.Getenv("VERIF_DUMP_UNKNOWN"); d != "" {
+		dumpN++
+		os.WriteFile(fmt.Sprintf("%s/unk-%d-%d.smt2", d, os.Getpid(), dumpN), []byte(sb.String()), 0644)
+	}
+	if strings.HasPrefix(first, "(error") {
+		return RUnknown, nil, first
+	}
+	return RUnknown, nil, ""
+}
+
+var dumpN int
 
 type SatResult int
 
@@ -160,6 +241,7 @@ func (s *Solver) Check(defs string, assume []string, wantModel bool, vars []stri
 		s.NUnknown++
 		return RUnknown, nil, "solver dead"
 	}
+	s.pathLog.WriteString(defs)
 	var sb strings.Builder
 	sb.WriteString(defs)
 	sb.WriteString("(push 1)\n")
